@@ -646,7 +646,8 @@ func decodeKeyNotFoundStream(s *Stream, start int64) (*structFieldSet, string, e
 				if !s.read() {
 					return nil, "", errors.ErrUnexpectedEndOfJSON("string", s.totalOffset())
 				}
-				buf, cursor, p = s.statForRetry()
+				// the cursor stays on the escaped character, which the next round skips
+				buf, cursor, p = s.stat()
 			}
 		case nul:
 			s.cursor = cursor
